@@ -12,7 +12,7 @@ import (
 	. "vh/vhlib"
 )
 
-var gens = map[string]GenFn{"RouteSrc": genRouteSrc, "EndpointSrc": genEndpointSrc, "RouterSrc": genRouterSrc}
+var gens = map[string]GenFn{"RouteSrc": genRouteSrc, "EndpointSrc": genEndpointSrc, "RouterSrc": genRouterSrc, "ClusterSrc": genClusterSrc}
 
 // delegatesToBase: does `func (x *recv) FinalizeRequestHeaders(ctx, headers, requestInfo)` run the base implementation?
 //
@@ -401,5 +401,40 @@ func genRouterSrc(repo string) (string, error) {
 	fmt.Fprintf(&b, "Definition route_scan_is_linear := %v.\n", linear)
 	fmt.Fprintf(&b, "Definition host_fallback_default := %v.\n", fallback == 1)
 	fmt.Fprintf(&b, "Definition RouterSrc_translator_ok := %v.\n", fallback <= 1 && returnsNil == 1 && lowers == 1)
+	return b.String(), nil
+}
+
+// genClusterSrc (C12): does UpdateClusterResourceManagerHandler make the updated cluster ADOPT the old cluster's resource
+// manager object (`ci.resourceManager = oldResourceManager` + `updateResourceValue(oldResourceManager, newResourceManager)`:
+// thresholds rewritten in place, counters shared with the requests in flight)?
+func genClusterSrc(repo string) (string, error) {
+	_, f, err := ParseGoFile(repo, "pkg/upstream/cluster/cluster_manager.go")
+	if err != nil {
+		return "", err
+	}
+	fd := FindFunc(f, "", "UpdateClusterResourceManagerHandler")
+	if fd == nil {
+		return "", fmt.Errorf("UpdateClusterResourceManagerHandler not found")
+	}
+	assigns, updates, others := 0, 0, 0
+	ast.Inspect(fd.Body, func(n ast.Node) bool {
+		switch x := n.(type) {
+		case *ast.AssignStmt:
+			if len(x.Lhs) == 1 && len(x.Rhs) == 1 && strings.HasSuffix(selName(x.Lhs[0]), ".resourceManager") && selName(x.Rhs[0]) == "oldResourceManager" {
+				assigns++
+			}
+		case *ast.CallExpr:
+			switch name := selName(x.Fun); {
+			case name == "updateResourceValue" && len(x.Args) == 2 && selName(x.Args[0]) == "oldResourceManager" && selName(x.Args[1]) == "newResourceManager":
+				updates++
+			case strings.Contains(strings.ToLower(name), "resourcevalue") || strings.HasSuffix(name, ".UpdateCur"):
+				others++
+			}
+		}
+		return true
+	})
+	var b strings.Builder
+	fmt.Fprintf(&b, "Definition resource_manager_adopted := %v.\n", assigns == 1 && updates == 1 && others == 0)
+	fmt.Fprintf(&b, "Definition ClusterSrc_translator_ok := %v.\n", true)
 	return b.String(), nil
 }
